@@ -38,7 +38,7 @@ unsigned vp_reserve(int* v) { return N().try_reserve(*v); }
 unsigned vp_release() { return N().try_release(); }
 unsigned vp_consume() { return N().try_consume(); }
 unsigned vp_remove_succ(unsigned i) { return N().remove_successor(vp_succ(i)); }
-unsigned vp_add_succ(unsigned i) { return N().register_successor(vp_succ(i)); }
+unsigned vp_add_succ(unsigned i) { new (&vp_succ(i)) vp_recv(); vp_succ(i).id = i; return N().register_successor(vp_succ(i)); }   // a successor registered later
 unsigned long vp_head() { return N().my_head; }
 unsigned long vp_tail() { return N().my_tail; }
 unsigned long vp_cap() { return N().my_array_size; }
